@@ -148,7 +148,14 @@ def run(ctx):
             if "%s(index(%s,%s).%s,index(%s,sub(%s,1)).%s)" % (rel, USED, IDX, fld, USED, IDX, fld) in condset:
                 return True
         W = "next(into_iter(windows(%s,2)))" % USED
-        return "%s(index(%s,1).%s,index(%s,0).%s)" % (rel, W, fld, W, fld) in condset
+        if "%s(index(%s,1).%s,index(%s,0).%s)" % (rel, W, fld, W, fld) in condset:
+            return True
+        # `for pair in used.windows(2)` (optionally enumerated) with pair[0] / pair[1]
+        for c in condset:
+            m = re.fullmatch(r"%s\((.+)\[1\]\.%s,(.+)\[0\]\.%s\)" % (rel, fld, fld), c)
+            if m and m.group(1) == m.group(2) and re.fullmatch(r"next\(into_iter\((?:enumerate\()?windows\(%s,2\)\)?\)\)(?:\.1)?" % re.escape(USED), m.group(1)):
+                return True
+        return False
     ctx.inst("C18.R2", "seven/utils-strictly-increasing", pair("util", "le"), "for every adjacent pair of used points: reject if curr.util <= prev.util (loop 1..used.len())", [c for c in conds if ".util" in c and "index" in c], v7.loc(v7.raw["span"]))
     ctx.inst("C18.R2", "seven/rates-non-decreasing", pair("rate", "lt"), "for every adjacent pair of used points: reject if curr.rate < prev.rate", [c for c in conds if ".rate" in c and "index" in c], v7.loc(v7.raw["span"]))
     ctx.inst("C18.R2", "seven/zero-le-hundred", "lt(p1.hundred_util_rate,p1.zero_util_rate)" in condset, "reject if hundred_util_rate < zero_util_rate", conds, v7.loc(v7.raw["span"]))
@@ -157,19 +164,24 @@ def run(ctx):
     why = ""
     for c in conds:
         m = re.fullmatch(r"not\(all\(iter\((.+)\),closure\{(.*)\}\)\)", c)
+        anyform = False
+        if not m:
+            m = re.fullmatch(r"any\(iter\((.+)\),closure\{(.*)\}\)", c)      # reject if any point is outside: the negated predicate
+            anyform = bool(m)
         if m and m.group(1) == USED:
             caps = split_call("x(" + m.group(2) + ")")[1]
             clos = [g for g in prog.fns.values() if g.info["kind"] == "Closure" and g.info.get("closure_of") == v7.key]
             for g in clos:
                 paths = bool_paths(prog, g)
-                tp = [(cs, r) for cs, r in paths if r != "0"]
+                # the single path on which the point is *accepted* (all-form: closure true; any-form: closure false)
+                tp = [(cs, r) for cs, r in paths if r != ("1" if anyform else "0")]
                 if len(tp) != 1:
                     continue
                 cs, r = tp[0]
                 conj = set(cs)
                 sc = split_call(r) if r else None
-                if r and r != "1":
-                    conj.add(norm_cond(r, True))
+                if r and r != ("0" if anyform else "1"):
+                    conj.add(norm_cond(r, not anyform))
 
                 def subst(x):
                     for i, cap in enumerate(caps):
